@@ -106,19 +106,22 @@ fn main() {
             }
             #[cfg(feature = "std-build")]
             facts!(8, unimock::mock::std::process::TerminationMock::report);
-            facts!(10, DMock::r0);
-            facts!(11, DMock::r1);
-            facts!(12, DMock::u2);
-            facts!(13, DMock::u3);
-            facts!(14, DMock::p_ref);
-            facts!(15, DMock::p_mut);
-            facts!(16, DMock::p_val);
-            facts!(17, DMock::p_rc);
-            facts!(18, DMock::p_arc);
-            facts!(19, DMock::p_pin);
-            facts!(20, DMock::m_mut);
-            facts!(23, DMock::r_rc);
-            facts!(24, DMock::p_rc2);
+            #[cfg(feature = "dtrait")]
+            {
+                facts!(10, DMock::r0);
+                facts!(11, DMock::r1);
+                facts!(12, DMock::u2);
+                facts!(13, DMock::u3);
+                facts!(14, DMock::p_ref);
+                facts!(15, DMock::p_mut);
+                facts!(16, DMock::p_val);
+                facts!(17, DMock::p_rc);
+                facts!(18, DMock::p_arc);
+                facts!(19, DMock::p_pin);
+                facts!(20, DMock::m_mut);
+                facts!(23, DMock::r_rc);
+                facts!(24, DMock::p_rc2);
+            }
             writeln!(out, "--").unwrap();
             out.flush().unwrap();
             continue;
